@@ -563,6 +563,7 @@ impl Sim for SimD2 {
         let (init_calls, end_ms): (usize, u64) = rt.block_on(async {
             let start = tokio::time::Instant::now();
             let attempt = Arc::new(Mutex::new(0usize));
+            let snap_rot = sc.tokio_seed % 3;
             let last_ms = Arc::new(Mutex::new(0u64));
             let last_ms_out = last_ms.clone();
             let (insts2, conns2, delivered2, cc2, attempt2) = (insts.clone(), conns.clone(), delivered.clone(), conn_counter.clone(), attempt.clone());
@@ -593,6 +594,10 @@ impl Sim for SimD2 {
                             MarketEvent::from((exchange, i, snap))
                         })
                         .collect();
+                    // the order of the fetched snapshots is not tied to the subscription map's order
+                    let mut snapshots = snapshots;
+                    let n = snapshots.len();
+                    snapshots.rotate_left((snap_rot as usize + k) % n.max(1));
                     let map: Map<usize> = insts.iter().enumerate().map(|(i, _)| (sub_id(SYMBOLS[i]), i)).collect();
                     let (ws_sink_tx, _ws_sink_rx) = tokio::sync::mpsc::unbounded_channel();
                     let sock = socket(conn.frames.clone(), insts.clone(), futures, delivered.clone(), k, (start, last_ms.clone()));
